@@ -112,10 +112,10 @@ const (
 	sTransient  = 1
 	sASystem    = 2
 	sATransient = 3
-	sSvc0       = 4                      // + svc
-	sProto0     = sSvc0 + nSvcs          // + proto
-	sPeer0      = sProto0 + nProtos      // + peer
-	sSvcPeer0   = sPeer0 + nPeers        // + svc*nPeers + peer
+	sSvc0       = 4                        // + svc
+	sProto0     = sSvc0 + nSvcs            // + proto
+	sPeer0      = sProto0 + nProtos        // + peer
+	sSvcPeer0   = sPeer0 + nPeers          // + svc*nPeers + peer
 	sProtoPeer0 = sSvcPeer0 + nSvcs*nPeers // + proto*nPeers + peer
 	nFixed      = sProtoPeer0 + nProtos*nPeers
 )
